@@ -297,6 +297,15 @@ def run_unit(chk, items, tables):
     """called from props/c12.py:run with the card items it generated and the pinned tables"""
     global TABLES
     TABLES = tables
+    chk.trusted_base.append(
+        "translator plug-in tools/extractors/lr_tables.py: the dumped _lrtable.lr_action / lr_goto / defaulted_states / "
+        "_grammar.Productions are what sly.yacc.Parser.parse consults (exercised by U-lr)"
+    )
+    chk.assumptions.append(
+        "LR part (design_notes/LR.md): Model/LR.lean is Parser.parse up to the first syntax error; SLY's panic-mode "
+        "recovery and the semantic actions (which may raise or return None) are not modelled; C12LR_sound / C12LR_montepy "
+        "prove accepted => derivable, completeness is proved for the parenthesis-free geometry fragment only"
+    )
     drv = leanio.Driver(chk, "drv_lr")
     if not drv.ok:
         raise MachineryError("drv_lr does not build: " + drv.log[-400:])
